@@ -58,6 +58,10 @@ CHECKS = {
    "bounded-exhaustive enumeration of (pattern, string) pairs in every anchoring/greediness configuration against a naive backtracking matcher with its own XCU 2.14 parser; case/trim forms through the whole shell in every quoting style",
    "(i) every character sequence of length <= 4 (quick) / 5 (thorough) over {a b . - * ? [ ] ! ^ \\ : =} read with backslash escapes, and every Literal/Normal marking of sequences of length <= 3, against every string of length <= 3 over {a b . - ] [ ^ \\ : é}, in all four anchorings (is_match) and, for patterns <= 3, find/rfind with shortest/longest in the combinations # ## % %% use; (ii) every sequence of <= 3 (quick) / 4 (thorough) units where a unit is one of those characters or a whole inner bracket element [.c.] / [=c=] for 14 characters (incl. all regex-special ones), [:alpha:], [:punct:] — needed because the shortest pattern with a collating symbol already has 7 characters; (iii) 268 scripts through the whole shell: each special character quoted as 'c', \\c, \"c\" / \"\\c\", \"$v\" in case patterns and in # % ## %% trims must match only itself, first-match rule of case, quoted vs unquoted expansion results, shortest/longest prefix/suffix. 52M (quick) pairs; the reference matcher decides by brute force over substrings.",
    "Reference parser/matcher trusted; reversed ranges, classes/multi-character symbols as range endpoints, undefined classes and a trailing lone backslash are unspecified and skipped."),
+ "C01": ("exploration", "DESIGN.md §3 C01",
+   "bounded-exhaustive enumeration of words x variable states x positional parameters x IFS x nounset on the real expander against an independent reference expander over attributed characters; exhaustive `read` lines",
+   "Every word of <= 2 (quick, 7.8k words) / 3 (thorough) units over 88 units (literal; quoting forms ' ' '' \" \" \"\" \\<blank> \\:; $x ${x} \"$x\" \"${x}\" ${#x}; the eight switch forms - :- = := ? :? + :+ with inner words a, \"b c\", $y, bare b c, also inside double quotes; the four trims with four patterns; $@ \"$@\" $* \"$*\" $# $1 \"$1\") is expanded by yash_semantics::expansion::expand_words on a real Env in each of 560 configurations (x in {unset, empty, a, 'a b', ' a  b ', a:b, :a::b:, 'a: b'} x 5 positional-parameter lists x IFS in {unset, default, empty, ':', ': ', ' :', 'a'} x nounset) — 4.3M expansions in the quick tier — and compared with refexp: field list, error class (unset parameter, ${x?}), and the value assigned by = forms. Every 64th case also runs through the whole shell (`args WORD`). `read` is checked on every line of length <= 4/5 over {a, blank, :, backslash} x 4 IFS values x 1-3 variables x -r, including backslash-escaped delimiters at the end of the remainder.",
+   "refexp trusted (cross-validated against dash and bash during design); skipped as unspecified: unquoted $@/$* with empty or IFS-edged parameters, unquoted $* with empty IFS, read with several delimiters left plus a trailing non-whitespace one."),
 }
 
 NOT_YET = {
